@@ -415,7 +415,7 @@ namespace bluetoe {
         template < class Iterator, class Filter = details::all_uuid_filter >
         bool all_services_by_group( std::uint16_t starting_handle, std::uint16_t ending_handle, Iterator&, const Filter& filter = details::all_uuid_filter() );
 
-        std::uint8_t* collect_handle_uuid_tuples( std::size_t start, std::size_t end, bool only_16_bit, std::uint8_t* output, std::uint8_t* output_end );
+        std::uint8_t* collect_handle_uuid_tuples( std::size_t start, std::uint16_t ending_handle, bool only_16_bit, std::uint8_t* output, std::uint8_t* output_end );
 
         static void write_128bit_uuid( std::uint8_t* out, const details::attribute& char_declaration );
 
@@ -1009,11 +1009,9 @@ namespace bluetoe {
         const std::size_t start_index = handle_mapping::first_index_by_handle( starting_handle );
         const bool only_16_bit_uuids = attribute_at( start_index ).uuid != bits( details::gatt_uuids::internal_128bit_uuid );
 
-        std::size_t ending_index = handle_mapping::first_index_by_handle( ending_handle );
-
-        // if the ending handle points not on an existing attribute, the search will end at the next, lower handle
-        if ( ending_index != details::invalid_attribute_index && handle_mapping::handle_by_index( ending_index ) != ending_handle )
-            --ending_index;
+        // no attribute within the requested range (the range lies within a gap of the handle space)
+        if ( handle_mapping::handle_by_index( start_index ) > ending_handle )
+            return error_response( *input, details::att_error_codes::attribute_not_found, starting_handle, output, out_size );
 
         std::uint8_t*        write_ptr = &output[ 0 ];
         std::uint8_t* const  write_end = write_ptr + out_size;
@@ -1032,7 +1030,7 @@ namespace bluetoe {
 
         }
 
-        write_ptr = collect_handle_uuid_tuples( start_index, ending_index, only_16_bit_uuids, write_ptr, write_end );
+        write_ptr = collect_handle_uuid_tuples( start_index, ending_handle, only_16_bit_uuids, write_ptr, write_end );
 
         out_size = write_ptr - &output[ 0 ];
     }
@@ -1624,13 +1622,13 @@ namespace bluetoe {
     }
 
     template < typename ... Options >
-    std::uint8_t* server< Options... >::collect_handle_uuid_tuples( std::size_t start, std::size_t end, bool only_16_bit, std::uint8_t* out, std::uint8_t* out_end )
+    std::uint8_t* server< Options... >::collect_handle_uuid_tuples( std::size_t start, std::uint16_t ending_handle, bool only_16_bit, std::uint8_t* out, std::uint8_t* out_end )
     {
         const std::size_t size_per_tuple = only_16_bit
             ? 2 + 2
             : 2 + 16;
 
-        for ( ; ( start <= end || end == details::invalid_attribute_index ) && start < number_of_attributes
+        for ( ; start < number_of_attributes && handle_mapping::handle_by_index( start ) <= ending_handle
             && static_cast< std::size_t >( out_end - out ) >= size_per_tuple; ++start )
         {
             const details::attribute attr = attribute_at( start );
